@@ -4,6 +4,8 @@ the verdict is an invariant)."""
 import json, os, uuid
 from . import tlc, common
 
+MAXBYTES = 16 << 20
+
 CFG = """SPECIFICATION JSpec
 INVARIANT JOK
 """
@@ -18,11 +20,22 @@ def judge(module, records, constants=None, chunk=20000):
     cfg = CFG
     if constants:
         cfg += 'CONSTANTS\n' + ''.join('  %s = %s\n' % kv for kv in constants.items())
-    for off in range(0, len(records), chunk):
-        part = records[off:off + chunk]
+    # a batch is at most `chunk` records and at most MAXBYTES of JSON (every TLC worker parses the file itself;
+    # batches of long traces beyond ~100 MB made the parser fail for want of memory)
+    texts = [json.dumps(r) for r in records]
+    cuts, size, start = [], 0, 0
+    for i, t in enumerate(texts):
+        if i > start and (i - start >= chunk or size + len(t) > MAXBYTES):
+            cuts.append((start, i))
+            start, size = i, 0
+        size += len(t)
+    if start < len(texts):
+        cuts.append((start, len(texts)))
+    for off, end in cuts:
+        part = records[off:end]
         fn = os.path.join(d, uuid.uuid4().hex + '.json')
         with open(fn, 'w') as fh:
-            json.dump(part, fh)
+            fh.write('[' + ','.join(texts[off:end]) + ']')
         try:
             r = tlc.run(module, cfg, workers=8, env_extra={'RECS': fn}, tag='BAD', timeout=3000,
                         extra_args=['-continue'])
